@@ -558,6 +558,53 @@ def ptr_advance_bytes(fb, ef):
     return None
 
 
+_ERRV = {}
+
+
+def opaque_error_variants(fb, name):
+    """the discriminants of the Err payloads a workspace function kept opaque (a clock-read wrapper) can return, found by
+    exploring its own body; None when they cannot be enumerated"""
+    key = (id(fb), name)
+    if key in _ERRV:
+        return _ERRV[key]
+    _ERRV[key] = None
+    b = fb.body(name)
+    if b is None:
+        return None
+    eng = psi.Engine(fb, inline_depth=4, summaries=SUMMARIES)
+    out = set()
+    try:
+        for p in eng.run(b):
+            if p.kind != 'return' or p.value[0] != 'agg':
+                continue
+            if p.value[2] == 'Err':
+                ev = p.value[3][0]
+                d = eng.discr_of(b.crate, ev) if ev[0] == 'agg' else None
+                if d is None or not psi.is_int_const(d):
+                    return None
+                out.add(d[1])
+    except psi.PathLimit:
+        return None
+    _ERRV[key] = out
+    return out
+
+
+def feasible_opaque_errors(fb, p):
+    """False when the path assumes that an opaque workspace call returned an error variant its body never returns
+    (e.g. a `From` conversion of the error forked over every variant of a private error enum)"""
+    for term, op, val, _ in p.conds:
+        if not (term[0] == 't' and term[1] == 'discr' and op == '=='):
+            continue
+        x = term[2][0]
+        if x[0] == 't' and x[1] == 'field' and x[2][0][0] == 't' and x[2][0][1] == 'as' and x[2][0][2][1] == 'Err':
+            c = x[2][0][2][0]
+            if c[0] == 't' and c[1] == 'call' and fb.body(c[2][0]) is not None:
+                vs = opaque_error_variants(fb, c[2][0])
+                if vs is not None and val not in vs:
+                    return False
+    return True
+
+
 def c_string_literals(v):
     """C-string literals (text including the trailing NUL) found in a term: `"open\\0"` string constants, `b"open\\0"`
     byte-string constants (a reference to constant bytes) and literal byte arrays"""
